@@ -29,6 +29,23 @@ from .wire import Drainer, WireClient
 
 _ACTIVE = None  # the rig whose shims are installed in this process
 
+# libc's getprotobyname() is not re-entrant; manager thread and client threads share this process only in the
+# harness (in production they are separate processes), so serialise and cache it here to avoid a harness artefact
+# (observed: setsockopt(<garbage protocol>, TCP_NODELAY) -> ENOPROTOOPT in ~1 of 500 in-process connects).
+_gpn_real = socket.getprotobyname
+_gpn_lock = threading.Lock()
+_gpn_cache = {}
+
+
+def _getprotobyname(name):
+    with _gpn_lock:
+        if name not in _gpn_cache:
+            _gpn_cache[name] = _gpn_real(name)
+        return _gpn_cache[name]
+
+
+socket.getprotobyname = _getprotobyname
+
 
 class _SelectShim:
     error = _real_select.error
